@@ -281,16 +281,22 @@ def findMethod (ms : List (Method N)) (m : N) : Option (Method N) :=
   | [] => none
   | x :: rest => if x.name = m then some x else findMethod rest m
 
-/-- first class in `chain` defining `m` : (class, method, rest of chain) -/
-def resolveMethod (tbl : Table N) : List N → N → Option (N × Method N × List N)
-  | [], _ => none
+inductive MRes (N : Type) where
+  | found (k : N) (mm : Method N) (rest : List N)   -- defining class, method, rest of the chain
+  | external                                        -- a class outside the package comes first: it may define it
+  | none
+
+/-- first class in `chain` defining `m` -/
+def resolveMethod (tbl : Table N) : List N → N → MRes N
+  | [], _ => .none
   | k :: rest, m =>
     match findClass tbl k with
     | none => resolveMethod tbl rest m
     | some c =>
-      match findMethod c.methods m with
-      | some mm => some (k, mm, rest)
-      | none => resolveMethod tbl rest m
+      if c.external then .external
+      else match findMethod c.methods m with
+        | some mm => .found k mm rest
+        | none => resolveMethod tbl rest m
 
 inductive Eff (N : Type) where
   | check (cond : Bool)
@@ -322,13 +328,13 @@ def inlineRun (tbl : Table N) (mro : List N) (safe : List N) :
     | [] => inlineRun tbl mro safe fuel seen stack acc
     | ev :: evs =>
       let fr' : Frame N := { fr with evs := evs }
-      let enter (target : Option (N × Method N × List N)) (unresolvedSafe : Bool) :=
+      let enter (target : MRes N) (unresolvedSafe : Bool) :=
         match target with
-        | some (k, mm, rest) =>
+        | .found k mm rest =>
           if seen.contains (k, mm.name) then inlineRun tbl mro safe fuel seen (fr' :: stack) acc
           else inlineRun tbl mro safe fuel ((k, mm.name) :: seen)
                  ({ chain := rest, evs := mm.events, cond := fr.cond, top := false } :: fr' :: stack) acc
-        | none =>
+        | _ =>
           if unresolvedSafe then inlineRun tbl mro safe fuel seen (fr' :: stack) acc
           else inlineRun tbl mro safe fuel seen (fr' :: stack) (Eff.unknown :: acc)
       match ev with
@@ -342,10 +348,10 @@ def inlineRun (tbl : Table N) (mro : List N) (safe : List N) :
         else inlineRun tbl mro safe fuel seen stack acc
       | .use a =>
         match resolveMethod tbl mro a with
-        | some (k, mm, rest) =>
-          if mm.isProp then enter (some (k, mm, rest)) false
+        | .found k mm rest =>
+          if mm.isProp then enter (.found k mm rest) false
           else inlineRun tbl mro safe fuel seen (fr' :: stack) acc      -- a bound method object
-        | none =>
+        | _ =>
           if safe.contains a then inlineRun tbl mro safe fuel seen (fr' :: stack) acc
           else inlineRun tbl mro safe fuel seen (fr' :: stack) (Eff.use a :: acc)
       | .callSelf m => enter (resolveMethod tbl mro m) (safe.contains m)
@@ -359,8 +365,9 @@ def inlineMethod (tbl : Table N) (fitAttr : N) (cls : N) (m : N) : Option (List 
   | none => none
   | some c =>
     match resolveMethod tbl c.mro m with
-    | none => none
-    | some (k, mm, rest) =>
+    | .none => none
+    | .external => none
+    | .found k mm rest =>
       let safe := fitAttr :: (ctorParams tbl cls ++ classAttrsOf tbl c.mro)
       some (inlineRun tbl c.mro safe inlineFuel [(k, mm.name)]
         [{ chain := rest, evs := mm.events, cond := false, top := true }] [])
@@ -446,11 +453,11 @@ def resolveImpl (tbl : Table N) (sel : ClassEntry N → ParamsImpl N) (params : 
 def metaStore (tbl : Table N) (mro : List N) (params : List N) (attr : N) : N :=
   if params.contains attr then attr
   else match resolveMethod tbl mro attr with
-    | some (_, mm, _) =>
+    | .found _ mm _ =>
       match mm.events.filterMap (fun | Event.use a => some a | _ => none) with
       | [a] => a
       | _ => attr
-    | none => attr
+    | _ => attr
 
 def fixStore (tbl : Table N) (mro : List N) (params : List N) : Impl N → Impl N
   | .viaMeta a _ => .viaMeta a (metaStore tbl mro params a)
